@@ -817,7 +817,7 @@ class OracleOnly(corr.Suite):
             if len(c["ops"]) >= 3:
                 st["distinct_nontrivial"] += 1
             if len(st["samples"]) < 3:
-                st["samples"].append({"suite": self.name, "case": corr._short(c), "output_tokens": impl(c)[:40]})
+                st["samples"].append({"suite": self.name, "case": corr._short(c), "output_tokens": self.impl(c)[:40]})
             bad = corr._safe(self.oracle, c)
             if bad:
                 st["oracle_failures"] += 1
@@ -829,8 +829,12 @@ class OracleOnly(corr.Suite):
         return st
 
 
+def is_stale(ctx):
+    return any("c11_dispatch" in g or "c11_quic" in g for g in ((ctx.build or {}).get("gen_errors") or []))
+
+
 def suites(ctx):
-    stale = any("c11_dispatch" in g for g in ((ctx.build or {}).get("gen_errors") or []))
+    stale = is_stale(ctx)
     if stale:
         ctx.notes.append("translator failed: model is stale, correspondence skipped, oracle only")
         mk = lambda name: OracleOnly(ctx, name, "exec_tlssm", encode, impl, oracle, _ops, _rebuild, opname=_opname)  # noqa: E731
@@ -857,22 +861,30 @@ def run(ctx):
     run_chunks(cv, fc, "flights")
     run_chunks(sv, fs, "flights")
     completed, outcomes = STATS["completed"], dict(STATS["outcomes"])
+    _TRACE_CACHE.clear()
+    # QUIC level: the same adversary behind the peer puppet, real QuicConnection victims (props/c11_quic.py)
+    from props import c11_quic
+    qsuites, qextra = c11_quic.q_run(ctx, is_stale(ctx))
     return corr.merge_coverage(
-        [cv, sv],
+        [cv, sv] + qsuites,
         "key-holding adversary against real tls.Context victims: every (state, type byte) pair on a Context driven into that "
         "state; all words over {EE,CR,Cert,CV,Fin} up to length 6 with at most one repetition plus all words up to length 4 "
         "(thorough: all words up to length 6) x {no PSK, PSK selected, PSK offered but not selected}; check-failure "
         "valuations (bad MAC / signature / untrusted / expired certificate / truncated) of the near-legal flights; server "
         "victim: all words over {Cert, Cert(empty), CV, CV(bad), Fin, Fin(bad), EE, CR} up to length 4 x PSK x "
         "client-certificate request; random longer words with fragmentation. distinct = distinct model token encoding",
-        {"correspondence_skipped_translator_failed": isinstance(cv, OracleOnly), "state_type_pairs_probed": len(pairs), "client_flight_cases": len(fc), "server_flight_cases": len(fs),
-         "runs_reaching_post_handshake": completed, "outcome_histogram_all_ops": outcomes})
+        dict({"correspondence_skipped_translator_failed": isinstance(cv, OracleOnly), "state_type_pairs_probed": len(pairs),
+              "client_flight_cases": len(fc), "server_flight_cases": len(fs),
+              "runs_reaching_post_handshake": completed, "outcome_histogram_all_ops": outcomes}, **qextra))
 
 
 def replay(ctx, rep):
+    case = rep["case"]
+    if case.get("ops") and isinstance(case["ops"][0], dict):
+        from props import c11_quic
+        return c11_quic.q_replay(ctx, case)
     env()
     cv, sv = suites(ctx)
-    case = rep["case"]
     s = cv if case.get("role") == "client" else sv
     d, e, g = s.disagree(case)
     return {"suite": s.name, "disagree": d, "impl": e, "model": g, "oracle": oracle(case),
